@@ -103,6 +103,12 @@ def flow(name):
     global FLOWS
     if FLOWS is None:
         FLOWS = flows()
+    if name == "st_gen":
+        # environment answer "the callable hands out the SAME array object on every call"
+        # (un-normalised generic gradient); built afresh for every request so that a tree that
+        # writes into the caller's array cannot carry that damage from one case to the next
+        L = 1.7 * FLOWS["gen"].const
+        return Flow("st_gen", lambda t, x, L=L: L, lambda t: np.zeros(3), const=L.copy())
     return FLOWS[name]
 
 
